@@ -299,6 +299,77 @@ EDITS = {
 }
 
 
+# Semantics-preserving edits (renamed local, commuted operands, an added comment, a statement split in two): none of them may
+# turn an obligation red.  `ok` and `undecided` (lost anchor -> exit 2) are both acceptable; `violation` would be a false alarm.
+MG = "crates/lib/mimium-lang/src/compiler/mirgen.rs"
+CQ = "crates/lib/mimium-lang/src/compiler/mirgen/convert_qualified_names.rs"
+NEUTRAL = {
+    "C08": [
+        ("nt-st1", ST + "patch.rs", "let dst_end = patch.dst_addr + patch.size;", "let dst_end = patch.size + patch.dst_addr;", "state_tree"),
+        ("nt-st2", ST + "lib.rs", "let total_size = new_state_skeleton", "/* words of the new layout */ let total_size = new_state_skeleton", "state_tree"),
+    ],
+    "C05": [
+        ("nt-vs1", "crates/lib/mimium-lang/src/runtime/vm.rs", "        state_storage.resize(fnproto.state_skeleton.total_size() as usize);", "        let words = fnproto.state_skeleton.total_size() as usize;\n        state_storage.resize(words);", "vm_storage"),
+        ("nt-sy1", "crates/lib/mimium-lang/src/mir.rs", "            Type::Array(_elem_ty) => StateType(1),", "            Type::Array(_) => StateType(1),", "state_type"),
+        ("nt-ms1", MG, "                let (array_v, _array_ty, states) = self.eval_expr(*array);\n                let (index_v, _ty, states2) = self.eval_expr(*index);", "                let (array_v, _array_ty, states) = self.eval_expr(*array);\n                // the index is evaluated after the array\n                let (index_v, _ty, states2) = self.eval_expr(*index);", "mirgen_state"),
+    ],
+    "C11": [
+        ("nt-sc1", SCH + "scheduler.rs", "                let res = Some(*closure);\n                let _ = self.tasks.pop();\n                res", "                let due = Some(*closure);\n                let _ = self.tasks.pop();\n                due", "scheduler"),
+    ],
+    "C12": [
+        ("nt-rc1", MG, "                        let value = self.push_inst(Instruction::Load(ptr, ty));\n                        self.insert_release_recursively(value, ty);", "                        let loaded = self.push_inst(Instruction::Load(ptr, ty));\n                        self.insert_release_recursively(loaded, ty);", "mirgen_rc"),
+        ("nt-hp1", RT + "vm/heap.rs", "pub fn heap_retain(", "/// (retain)\npub fn heap_retain(", "heap"),
+    ],
+    "C13": [
+        ("nt-tk1", PAR + "token.rs", "        self.start + self.length\n", "        self.length + self.start\n", "parser_tokens"),
+    ],
+    "C17": [
+        ("nt-rw1", CQ, "            let new_lhs = convert_expr(ctx, lhs);\n            let new_rhs = convert_expr(ctx, rhs);\n            Expr::BinOp(new_lhs, op, new_rhs).into_id(loc)", "            let l = convert_expr(ctx, lhs);\n            let r = convert_expr(ctx, rhs);\n            Expr::BinOp(l, op, r).into_id(loc)", "resolve_walk"),
+        ("nt-rw2", CQ, "        let _ = self.local_bindings.pop();", "        self.local_bindings.pop();", "resolve_walk"),
+    ],
+    "C20": [
+        ("nt-ff1", "crates/lib/mimium-lang/src/runtime/ffi_serde.rs", "            FfiValue::Unit => Value::Unit,\n            FfiValue::Number(n) => Value::Number(n),", "            FfiValue::Number(x) => Value::Number(x),\n            FfiValue::Unit => Value::Unit,", "ffi_serde"),
+    ],
+}
+
+
+def run_neutral(prop, cfg, here, out, repo):
+    """every NEUTRAL edit on a scratch copy: returns {applied, ok, undecided, false_alarms}"""
+    edits = NEUTRAL.get(prop, [])
+    if not edits:
+        return None
+    paths = _files_needed(here, cfg)
+    base = os.path.join(out, "selftest")
+    os.makedirs(base, exist_ok=True)
+    res = {"applied": 0, "ok": [], "undecided": [], "false_alarms": [], "not_applied": [],
+           "note": "semantics-preserving edits on a scratch copy: a red obligation here would be a false alarm of the machinery"}
+
+    def one(e):
+        eid, path, old, new, unit = e
+        sc = make_scratch(repo, paths, base)
+        try:
+            fp = os.path.join(sc, path)
+            txt = open(fp).read()
+            if txt.count(old) < 1:
+                return eid, "not_applied", ""
+            open(fp, "w").write(txt.replace(old, new, 1))
+            od = os.path.join(sc, "_out")
+            os.makedirs(od, exist_ok=True)
+            r = run_unit(unit, os.path.join(here, "contracts", unit + ".vrs"), od, 30, None, False, None, sc, threads=2)
+            if r.status == "violation":
+                return eid, "false_alarms", "; ".join(f"{f['fn']}::{f['kind']}" for f in r.failed[:3])
+            return eid, ("ok" if r.status == "ok" else "undecided"), (r.reason or "")[:120]
+        finally:
+            shutil.rmtree(sc, ignore_errors=True)
+
+    with cf.ThreadPoolExecutor(max_workers=6) as ex:
+        for eid, st, info in ex.map(one, edits):
+            if st != "not_applied":
+                res["applied"] += 1
+            res[st].append(eid if not info or st == "ok" else f"{eid}: {info}")
+    return res
+
+
 def _files_needed(here, cfg):
     paths = set()
     for u in cfg.get("verus_units", []):
